@@ -188,7 +188,7 @@ func c12BasicGen(rt *rapid.T) c12BasicCase {
 	var c c12BasicCase
 	nu := rapid.IntRange(1, 3).Draw(rt, "n_users")
 	for i := 0; i < nu; i++ {
-		c.Users = append(c.Users, rapid.Uint64Range(1, 1<<62).Draw(rt, "uid")*4+uint64(i))
+		c.Users = append(c.Users, rapid.Uint64Range(1, 1<<61).Draw(rt, "uid")*4+uint64(i))
 	}
 	edge := []rune(c12Lower + "0123456789")
 	inner := []rune(c12Lower + c12Lower + "0123456789_.")
@@ -362,6 +362,12 @@ func c12BasicExec(t *testing.T, c c12BasicCase) (o kit.Outcome) {
 	if len(c.Users) == 0 || len(c.Names) == 0 || len(c.Pws) == 0 {
 		o.Skip = true
 		return o
+	}
+	for _, u := range c.Users {
+		if u == 0 { // the zero Uid means "nobody" throughout the server; not a user
+			o.Skip = true
+			return o
+		}
 	}
 	c12BasicStore.mu.Lock()
 	c12BasicStore.rows = nil
